@@ -58,8 +58,11 @@ ICanonSeq(s, k) ==                    \* the k-mers in the order in which mash.A
 ---------------------------------------------------------------------------
 (* MinHash: property level *)
 
-Asc(S)  == SetToSortSeq(S, <)
-Desc(S) == SetToSortSeq(S, >)
+\* ascending / descending enumeration of a finite set of integers.  TLC's SortSeq is an insertion sort (quadratic on a
+\* million hash ranks): SetToSeq's enumeration is used when it is ascending already (checked, never assumed), the sort otherwise
+IsAsc(s) == \A i \in 1..(Len(s) - 1) : s[i] < s[i + 1]
+Asc(S)  == LET s == SetToSeq(S) IN IF IsAsc(s) THEN s ELSE SetToSortSeq(S, <)
+Desc(S) == LET a == Asc(S) IN [i \in 1..Len(a) |-> a[Len(a) + 1 - i]]
 Bottom(H, n) == LET a == Asc(H) IN { a[i] : i \in 1..Min2(n, Len(a)) }     \* the n smallest elements
 SketchView(H, n) == Desc(Bottom(H, n))                                       \* View() after Sort()
 LastN(s, c) == SubSeq(s, Len(s) - c + 1, Len(s))                             \* Tail
